@@ -115,7 +115,7 @@ impl ValueCollection for Vec<Value> {
                 Some(std::mem::replace(&mut self[key as usize], value))
             }
         } else {
-            let len_required = -key as usize;
+            let len_required = key.unsigned_abs();
             if self.len() < len_required {
                 while self.len() < (len_required - 1) {
                     self.insert(0, Value::Null);
